@@ -356,8 +356,31 @@ fn run_c03(seed: u64, n: usize, oracle_only: bool, out: &mut Out) {
     let mut rng = Rng::new(seed);
     let schema = world::schema();
     let mut stats = new_stats();
-    for i in 0..n {
-        let c = gen_case(&mut rng, &schema, &mut stats, 0);
+    // plus deep recursions (depth 4-7 is beyond what the grammar generates): laziness must hold at every depth
+    let deep = (n / 8).max(30);
+    for i in 0..(n + deep) {
+        let c = if i < n {
+            gen_case(&mut rng, &schema, &mut stats, 0)
+        } else {
+            let mut r2 = rng.fork();
+            let root = *r2.pick(&["Thing", "Item", "Box"]);
+            let edge = if root == "Thing" { *r2.pick(&["next", "link", "parent"]) } else { *r2.pick(&["up", "next", "peer", "link"]) };
+            let d = r2.range(4, 7);
+            let text = format!("query {{ {root} {{ id @output(name: \"r\") {edge} @recurse(depth: {d}) {{ id @output }} }} }}");
+            let indexed = match parse(&schema, &text) {
+                Ok(ix) => ix,
+                Err(_) => continue,
+            };
+            out.count("family:deep-recursion");
+            EngineCase {
+                dataset: gen_dataset(&mut r2, 10),
+                query_text: text,
+                indexed,
+                args: Arc::new(BTreeMap::new()),
+                features: Default::default(),
+                var_hints: Default::default(),
+            }
+        };
         for f in &c.features {
             out.count(&format!("feat:{f}"));
         }
